@@ -58,6 +58,8 @@ pub trait Root: Send + Sync {
     fn type_name(&self) -> &'static str;
     /// Real (type hash, align hash) digests.
     fn hashes(&self) -> (u64, u64);
+    /// `align_of` of the type itself (load_mem refuses types aligned beyond 64).
+    fn align_of(&self) -> usize;
     fn ser(&self, v: &Val, sink: &mut IoSink) -> Result<usize, Fail<SerErr>>;
     fn ser_nostd(&self, v: &Val, sink: &mut NoStdSink) -> Result<usize, Fail<SerErr>>;
     fn ser_rec(&self, v: &Val, sink: &mut IoSink, evs: &mut Vec<Ev>) -> Result<usize, Fail<SerErr>>;
@@ -183,6 +185,9 @@ macro_rules! root {
             }
             fn hashes(&self) -> (u64, u64) {
                 $crate::root::real_hashes::<$t>()
+            }
+            fn align_of(&self) -> usize {
+                core::mem::align_of::<$t>()
             }
             fn ser(&self, v: &model::Val, sink: &mut $crate::sink::IoSink) -> Result<usize, $crate::outcome::Fail<$crate::outcome::SerErr>> {
                 use epserde::ser::Serialize;
